@@ -41,6 +41,17 @@ CORPUS = [
          old="bn = copy(buf, r.data[r.idx:])", new="bn = copy(buf, r.data)"),
     dict(name="C02-direct-path-skips-dictionary", kind="break", props=["C16"], file="reader.go",
          old="\t\tr.dict = append(r.dict, dst...)\n\t}\n\tr.cum += uint32(len(dst))", new="\t\tif !direct {\n\t\t\tr.dict = append(r.dict, dst...)\n\t\t}\n\t}\n\tr.cum += uint32(len(dst))"),
+    # ---- C02 (Writer accumulation) ----
+    dict(name="C02-writer-copy-to-buffer-start", kind="break", props=["C02"], file="writer.go",
+         old="m := copy(w.data[w.idx:], buf)", new="m := copy(w.data, buf)"),
+    dict(name="C02-flush-drops-last-byte", kind="break", props=["C02"], file="writer.go",
+         old="if err = w.write(w.data[:w.idx], false); err != nil {", new="if err = w.write(w.data[:w.idx-1], false); err != nil {"),
+    dict(name="C02-readfrom-drops-last-byte", kind="break", props=["C02"], file="writer.go",
+         old="err = w.write(data[:rn], true)", new="err = w.write(data[:rn-1], true)"),
+    dict(name="C02-direct-block-resends-a-byte", kind="break", props=["C02"], file="writer.go",
+         old="\t\t\tn += zn\n\t\t\tbuf = buf[zn:]", new="\t\t\tn += zn\n\t\t\tbuf = buf[zn-1:]"),
+    dict(name="C02-benign-swap-updates", kind="benign", props=["C02"], file="writer.go",
+         old="\t\tn += m\n\t\tw.idx += m\n", new="\t\tw.idx += m\n\t\tn += m\n"),
     # ---- Option closures (C09 / C17 / C18) ----
     dict(name="C09-blocksize-accepts-8mb", kind="break", props=["C09"], file="options.go",
          old="\t\tcase *Writer:\n\t\t\tsize := uint32(size)\n\t\t\tif !lz4block.Index(size).IsValid() {", new="\t\tcase *Writer:\n\t\t\tsize := uint32(size)\n\t\t\tif !lz4block.IsValid(size) {"),
